@@ -1,6 +1,7 @@
 import G3D.Proofs.PlaneForms
+import G3D.Proofs.Forms2
 /-! # C17 — Plane and Line forms round-trip to the same object
-    (parametric form and the line forms are added from G3D/Proofs/Forms2 when present) -/
+    All forms of the statement are proved on the model (full). -/
 namespace G3D.Props.C17
 open G3D V3
 
@@ -21,6 +22,27 @@ theorem three_points_contained (a b c : V3) (P : Plane) (h : Plane.ofPoints a b 
 
 /-- `-P` has the opposite normal and the same points -/
 theorem neg_plane (P : Plane) : (∀ x, P.neg.den x ↔ P.den x) ∧ P.neg.n = V3.neg P.n := plane_neg P
+
+/-- `Plane(Point(u), v, w)` with `(u, v, w) = P.parametric()` equals `P`; `v`, `w` are orthogonal to the normal
+    (parallel to the plane), orthogonal to each other and linearly independent — for EVERY normal, whatever its zero pattern
+    (through the two solver calls of the code) -/
+theorem parametric_roundtrip (P : Plane) (hP : P.WF) :
+    ∃ u v w, P.parametric = .ok (u, v, w) ∧ u = P.p ∧ dot v P.n = 0 ∧ dot w P.n = 0 ∧ dot v w = 0 ∧
+      cross v w ≠ zero ∧ ∃ Q, Plane.ofPVV u v w = .ok Q ∧ Q.eqv P = true ∧ ∀ x, Q.den x ↔ P.den x :=
+  plane_param_roundtrip P hP
+
+/-- `Plane(Point(p), n)` with `(p, n) = P.point_normal()` is `P` -/
+theorem point_normal_roundtrip (P : Plane) (hP : P.WF) :
+    ∃ Q, Plane.ofPN P.pointNormal.1 P.pointNormal.2 = .ok Q ∧ Q = P := plane_pn_roundtrip P hP
+
+/-- `Line(p, q)` and `Line(p, q - p)` are the same line, through `p` and `q` -/
+theorem line_forms (p q : V3) (h : p ≠ q) :
+    ∃ l1 l2, Line.ofPoints? p q = .ok l1 ∧ Line.mk? p (sub q p) = .ok l2 ∧ l1 = l2 ∧ l1.WF ∧ l1.den p ∧ l1.den q :=
+  line_forms_agree p q h
+
+/-- `Line(*l.parametric())` reproduces `l` -/
+theorem line_parametric_roundtrip (l : Line) (hl : l.WF) : Line.mk? l.parametric.1 l.parametric.2 = .ok l :=
+  line_param_roundtrip l hl
 
 /-- non-vacuity, zero leading coefficient (the D5 witness): `Plane(0, 1, 2, 3)` is constructed -/
 example : ∃ P, Plane.ofGF 0 1 2 3 = .ok P := by
